@@ -157,6 +157,9 @@ func measureOnce(c *Case, keep bool) (rec Rec) {
 			return
 		}
 		buf := make([]byte, 32<<10)
+		if c.Abandon > 0 && c.Abandon < len(buf) {
+			buf = buf[:c.Abandon]
+		}
 		limit := hardStop
 		if rec.CapBytes > 0 {
 			limit = rec.CapBytes + 1
@@ -193,10 +196,7 @@ func measureOnce(c *Case, keep bool) (rec Rec) {
 				stall = 0
 			}
 		}
-		if cerr := r.Close(); cerr != nil && rec.Outcome == "data" && c.Abandon == 0 {
-			// an error from Close after a clean read counts like a read error class
-			rec.Outcome, rec.Note = classify(cerr)
-		}
+		r.Close() // the property speaks about building and reading; the result of Close is not judged
 	}()
 	rec.WallUs = int(time.Since(t0) / time.Microsecond)
 	rec.AllocKB = int((allocBytes() - a0) / 1024)
@@ -228,7 +228,7 @@ func measure(c *Case, keep bool) Rec {
 	for attempt := 0; ; attempt++ {
 		done := make(chan Rec, 1)
 		go func() { done <- measureOnce(c, keep) }()
-		budget := 20*time.Second + time.Duration(len(c.Body()))*20*time.Microsecond
+		budget := 40*time.Second + time.Duration(len(c.Body()))*20*time.Microsecond
 		select {
 		case r := <-done:
 			return r
